@@ -340,12 +340,20 @@ func buildAdjust(f int, items []sItem) *ContainerAdjustment {
 // and arbitrary presence of the optional sub-objects.
 func symOriginal(f int) *CreateContainerRequest {
 	c := &Container{Id: nondetString()}
-	if f == famArgs {
+	if rhConcreteNames {
+		c.Id = "ctr0"
+	}
+	if rhNoOriginal {
+		// bound: the original container carries no item of the family
+	} else if f == famArgs {
 		if nondetBool() {
 			c.Args = []string{nondetString()}
 		}
 	} else if nondetBool() {
 		pre := symItems(f, 1)
+		if rhOrigHook != nil {
+			pre = rhOrigHook()
+		}
 		if len(pre) == 1 {
 			it := pre[0]
 			switch f {
@@ -373,9 +381,29 @@ func symOriginal(f int) *CreateContainerRequest {
 	return &CreateContainerRequest{Container: c, Pod: &PodSandbox{}}
 }
 
+// rhSameTarget: set by harnesses in which every plugin updates the same (arbitrary) container.
+var rhSameTarget bool
+
+// rhItemsHook / rhOrigHook: when set, the items of plugin j / of the original container come from the harness
+// instead of symItems (used by the chain harnesses, which fix the keys to a small concrete set).
+var rhItemsHook func(j int) []sItem
+var rhOrigHook func() []sItem
+
+// rhConcreteNames: plugin names and the container id are fixed strings (chain harnesses).
+var rhConcreteNames bool
+
+// rhNoOriginal: set by harnesses that fix the original container to carry no item of the family.
+var rhNoOriginal bool
+
 // symPlugins returns n pairwise distinct non-empty plugin names.
 func symPlugins(n int) []string {
 	ps := make([]string, n)
+	if rhConcreteNames {
+		for i := range ps {
+			ps[i] = "plugin-" + itoa(i)
+		}
+		return ps
+	}
 	for i := range ps {
 		ps[i] = nondetString()
 		assume(ps[i] != "")
@@ -461,6 +489,9 @@ func rhUpdateRun(kind int, fams []int, maxItems []int, prepop int, mode int) {
 		f := fams[j]
 		cur := symItems(f, maxItems[j])
 		t := nondetString()
+		if rhSameTarget && len(targets) > 0 {
+			t = targets[0]
+		}
 		if kind == reqCreate {
 			assume(t != own) // updating the container under creation is C05's subject
 		}
